@@ -250,6 +250,25 @@ Definition run_dense (st : nat) (gen : bool) (op : Z) (d : dense) (args : list s
                   (tab m n (fun i j => if (i <? length rows)%nat && (j <? length cols)%nat
                                        then getv x (nth i rows O) (nth j cols O) else getv d i j))))
       | _, _, _ => sx_error 2 end
+  | 30%Z, [] => both (encQ (SQ_trace d)) (encSpec encQ (guard (m =? n)%nat (sumn m (fun i => getv d i i))))
+  | 31%Z, [a] =>
+      match asVec a with
+      | Some v => both (L [I 0%Z; ofOQ (SQ_normVec d v)])
+                       (encSpec (fun o => L [I 0%Z; ofOQ o]) (guard ((m =? n)%nat && (length v =? m)%nat) (Some (dot m (vl v) (mvec m (A_ d) (vl v))))))
+      | None => sx_error 2 end
+  | 32%Z, [md; a] =>
+      match asNat md, asVec a with
+      | Some mode, Some c =>
+          both (encRes encM (SQ_prodByDiag sym d mode c))
+               (encSpec encM (guard ((m =? n)%nat && (length c =? m)%nat && negb sym && ((mode =? 0)%nat || nonzero_all c))
+                                    (tab m n (match mode with O => mcolscale (vl c) (A_ d) | _ => mcoldiv (vl c) (A_ d) end))))
+      | _, _ => sx_error 2 end
+  | 33%Z, [a] =>
+      match asVec a with
+      | Some v => both (encRes encM (SQ_prodDiagByVector sym d v))
+                       (encSpec encM (guard ((m =? n)%nat && (length v =? m)%nat)
+                                            (tab m n (fun i j => if (i =? j)%nat then getv d i i * nth i v 0 else getv d i j))))
+      | None => sx_error 2 end
   | 28%Z, [] => both (encB (G_isSymmetric sq sym d)) (encSpec encB (guard (negb (isEmpty d)) (symmetric_b d)))   (* the empty matrix: convention, not compared *)
   | _, _ => sx_error 3
   end.
@@ -461,6 +480,13 @@ Definition run_vec (op : Z) (args : list sx) : sx :=
           let r := VH_arrange safe ranks v asc size in
           both (L [I 0%Z; L (map I (fst r)); ofList ofOQ (snd r)]) (L [I 3%Z])
       | _, _, _, _, _ => sx_error 2 end
+  | 19%Z, [a; b] =>
+      match asVec a, asVec b with
+      | Some src, Some dest =>
+          both (encRes encV (VH_addInPlace_span src dest))
+               (encSpec encV (guard (length src <=? length dest)%nat
+                                    (vecn (length dest) (fun i => if (i <? length src)%nat then nth i dest 0 + nth i src 0 else nth i dest 0))))
+      | _, _ => sx_error 2 end
   | 17%Z, [a] => match asVec a with Some v => both (encV (VH_unique v)) (L [I 3%Z]) | None => sx_error 2 end
   | 18%Z, [a; b] => match asVec a, asB b with Some v, Some asc => both (encV (VH_sort v asc)) (L [I 3%Z]) | _, _ => sx_error 2 end
   | _, _ => sx_error 3
@@ -518,6 +544,20 @@ Definition run_solve (op : Z) (args : list sx) : sx :=
                    | S (S (S (S O))) => tab n1 n2 (mmul n2 (absd A) (mT TL))
                    | _ => tab n1 n2 (mmul n2 (absd A) TL)
                    end)))
+      | _, _, _ => sx_error 2 end
+  (* MatrixSquareSymmetric::createFromTLTU / createFromTriangle from a packed lower triangle *)
+  | 12%Z, [nn; t] =>
+      match asNat nn, asVec t with
+      | Some n, Some tl =>
+          both (encM (SS_createFromTLTU n tl))
+               (encSpec encM (guard (length tl =? n * (n + 1) / 2)%nat (tab n n (mmul n (tl_get n tl) (mT (tl_get n tl))))))
+      | _, _ => sx_error 2 end
+  | 13%Z, [md; nn; t] =>
+      match asNat md, asNat nn, asVec t with
+      | Some mode, Some n, Some tl =>
+          both (encM (SS_createFromTriangle mode n tl))
+               (encSpec encM (guard (length tl =? n * (n + 1) / 2)%nat
+                                    (tab n n (fun i j => if (j <=? i)%nat then tl_get n tl i j else tl_get n tl j i))))
       | _, _, _ => sx_error 2 end
   (* MatrixSquareGeneral::_forwardLU / _backwardLU *)
   | 10%Z, [l; b] =>
